@@ -17,7 +17,7 @@ package main
 //     (reported separately in `pageLoaderZeroGuard`: that guard is finding F8), or
 //   - it calls, under the same nesting rule, a function of the same file that does the above.
 //
-// Also extracted: where the writer sets the CRC and over which buffers, and the declared type and
+// Also extracted: which functions call a page loader (`pageLoaderCalls`), where the writer sets the CRC and over which buffers, and the declared type and
 // thrift tag of format.PageHeader.CRC (the `optional` i32 that makes a zero CRC disappear).
 
 import (
@@ -484,6 +484,38 @@ func pageLoaders(r *Repo, s *Section) error {
 	s.Def("pageLoaders", "List (String × Bool)", List(rows))
 	s.Comment("for the loaders that verify: is the comparison skipped when the header CRC is zero (`if header.CRC != 0`)")
 	s.Def("pageLoaderZeroGuard", "List (String × Bool)", List(guards))
+	// who asks a page loader for a body: (caller, loader) for every call in file.go to a function
+	// that bears the name of a page loader
+	bare := map[string]string{}
+	for _, n := range names {
+		bare[funcs[n].Name.Name] = n
+	}
+	var calls []string
+	seenCall := map[string]bool{}
+	for _, name := range order {
+		ast.Inspect(funcs[name].Body, func(n ast.Node) bool {
+			c, ok := n.(*ast.CallExpr)
+			if !ok {
+				return true
+			}
+			callee := ""
+			switch f := c.Fun.(type) {
+			case *ast.Ident:
+				callee = f.Name
+			case *ast.SelectorExpr:
+				callee = f.Sel.Name
+			}
+			if l, ok := bare[callee]; ok && !seenCall[name+">"+l] {
+				seenCall[name+">"+l] = true
+				calls = append(calls, Tuple(Str(name), Str(l)))
+				s.Comment("file.go:%d %s calls %s", r.Line(c), name, l)
+			}
+			return true
+		})
+	}
+	sort.Strings(calls)
+	s.Comment("(caller, loader): the functions of file.go that obtain a page body from a page loader")
+	s.Def("pageLoaderCalls", "List (String × String)", List(calls))
 	sort.Strings(others)
 	s.Comment("every other read site of file.go: (function, destination)")
 	s.Def("otherReadSites", "List (String × String)", List(others))
